@@ -175,7 +175,6 @@ Definition l_commit_key (ks : kstate) (k : bytes) (l : llock) (cv : N) : kstate 
     match find_start (ks_recs ks) (l_ts (ll_rec l)) with
     | Some r =>
         if op_eqb (lr_kind r) OpRollback then (ks, Some (KEAbort AbRolledBack))
-        else if lr_ts r =? cv then (ks, None)
         else ({| ks_lock := None; ks_recs := ks_recs ks |}, None)
     | None =>
         ({| ks_lock := None;
@@ -268,7 +267,15 @@ Definition l_check (a : lstate) (primary : bytes) (lock_ts current_ts caller_sta
   match ks_lock ks with
   | Some l =>
       if negb (l_ts (ll_rec l) =? lock_ts) then (a, cr_err (KELocked primary (ll_rec l)))
-      else if lock_expired (ll_rec l) current_ts then
+      else
+      match (match find_start (ks_recs ks) lock_ts with
+             | Some r => if op_eqb (lr_kind r) OpRollback then None else Some r
+             | None => None
+             end) with
+      | Some r =>   (* the transaction is committed here and only its lock is left: remove it, report the commit *)
+          (lupd a primary {| ks_lock := None; ks_recs := ks_recs ks |}, cr_ok ActNone 0 (lr_ts r))
+      | None =>
+      if lock_expired (ll_rec l) current_ts then
         (lupd a primary (l_rollback_key ks lock_ts), cr_ok ActTTLExpireRollback 0 0)
       else if (0 <? caller_start) && (l_min_commit (ll_rec l) <? wrap64 (caller_start + 1)) then
         let lr := ll_rec l in
@@ -279,6 +286,7 @@ Definition l_check (a : lstate) (primary : bytes) (lock_ts current_ts caller_sta
                  ks_recs := ks_recs ks |},
          cr_ok ActMinCommitPushed (l_ttl lr) 0)
       else (a, cr_ok ActNone (l_ttl (ll_rec l)) 0)
+      end
   | None =>
       match find_start (ks_recs ks) lock_ts with
       | Some r =>
